@@ -988,7 +988,7 @@ class state( dict ):
                     lst		= pre
                     for num,enc in xformed[:-1]:
                         add	= len( states )
-                        while add in machine.map:
+                        while add in machine.map or add in states:
                             add += 1
                         states[add] \
                             	= cls( name=str( pre ) + '_' + str( num ), terminal=False, **kwds )
